@@ -251,8 +251,15 @@ func (vc *VC) exec(rs *runState, ins ssa.Instruction) {
 	case *ssa.If:
 		c := vc.val(ins.Cond).C[0]
 		b := ins.Block()
-		rs.edge[edgeKey{b, 0}] = vc.define(fmt.Sprintf("e_%d_%d", b.Index, b.Succs[0].Index), "Bool", sAnd(pc, c))
-		rs.edge[edgeKey{b, 1}] = vc.define(fmt.Sprintf("e_%d_%dn", b.Index, b.Succs[1].Index), "Bool", sAnd(pc, sNot(c)))
+		e0, e1 := sAnd(pc, c), sAnd(pc, sNot(c))
+		if e0 != "false" && e0 != "true" {
+			e0 = vc.define(fmt.Sprintf("e_%d_%d", b.Index, b.Succs[0].Index), "Bool", e0)
+		}
+		if e1 != "false" && e1 != "true" {
+			e1 = vc.define(fmt.Sprintf("e_%d_%dn", b.Index, b.Succs[1].Index), "Bool", e1)
+		}
+		rs.edge[edgeKey{b, 0}] = e0
+		rs.edge[edgeKey{b, 1}] = e1
 	case *ssa.Jump:
 		rs.edge[edgeKey{ins.Block(), 0}] = pc
 	default:
@@ -297,7 +304,11 @@ func (vc *VC) execConvert(ins ssa.Value, xv ssa.Value, to types.Type) {
 		// copy into a fresh object
 		r := vc.allocObj(h, nil)
 		n := x.C[2]
-		vc.memcpy(h, r, off64(0), h, x.C[0], x.C[1], layoutOf(types.Typ[types.Uint8]), n, -1)
+		nc := int64(-1)
+		if lv, _, ok := asLit(n); ok && lv.IsInt64() {
+			nc = lv.Int64()
+		}
+		vc.memcpy(h, r, off64(0), h.clone(), x.C[0], x.C[1], layoutOf(types.Typ[types.Uint8]), n, nc)
 		if tk == KSlice {
 			vc.vals[ins] = &Val{K: KSlice, T: to, C: []string{r, off64(0), n, n}}
 		} else {
